@@ -1391,6 +1391,8 @@ ol, ul { padding-left: 2em; }
         """ Generate a number of spaces. ODF has an element; HTML uses &nbsp;
             We use &#160; so we can send the output through an XML parser if we desire to
         """
+        self.writedata()
+        self.purgedata()
         c = attrs.get( (TEXTNS,'c'),"1")
         for x in range(int(c)):
             self.writeout('&#160;')
